@@ -120,7 +120,7 @@ func parseOnce(env *interp.ExecEnv, src string, kind string, failAt int) (res pa
 		}
 		done <- r
 	}()
-	deadline := time.After(3 * time.Second)
+	deadline := time.After(watchdog(3))
 	tick := time.NewTicker(50 * time.Millisecond)
 	defer tick.Stop()
 	for {
